@@ -2,6 +2,7 @@ package main
 
 import (
 	"fmt"
+	"runtime"
 	"sort"
 	"strconv"
 	"strings"
@@ -16,6 +17,7 @@ const (
 	keySplit   = "cachekey:collision:GETRANGE-digit-split"  // same command token, argument boundaries differ
 	keyMerge   = "cachekey:collision:HGET-ALL-vs-HGETALL"   // command token absorbs (part of) an argument
 	keyAdapter = "cachekey:collision:adapter-key++cmd"      // different (key, cmd), same key+cmd
+	keyPool    = "cachekey:collision:other:pool-recycled-identity"
 )
 
 type ccmd struct {
@@ -73,6 +75,65 @@ func fromLine(ws []string) ccmd {
 	panic("unknown script command " + argv[0])
 }
 
+// fromLinePooled is fromLine, but plain commands are built on a POOLED CommandSlice too (Builder.Arbitrary),
+// like every command the generated builders make.
+func fromLinePooled(ws []string) ccmd {
+	if ws[0] == "1" {
+		return fromLine(ws)
+	}
+	argv := make([]string, len(ws)-1)
+	for i, w := range ws[1:] {
+		argv[i] = unhx(w)
+	}
+	if len(argv) == 0 {
+		return fromLine(ws)
+	}
+	return ccmd{argv: argv, c: cmds.Cacheable(bld.Arbitrary(argv[0]).Args(argv[1:]...).Build())}
+}
+
+// pureIdentity: the identity as a function of the argv alone (key token + plain concatenation of the rest).
+func pureIdentity(x ccmd) (key, rest string, panics bool) {
+	if len(x.argv) == 2 {
+		return x.argv[1], x.argv[0], false
+	}
+	kp := 1
+	if x.scr {
+		if len(x.argv) < 3 || x.argv[2] != "1" {
+			return "", "", true
+		}
+		kp = 3
+	}
+	var sb strings.Builder
+	for i, v := range x.argv {
+		if i == kp {
+			key = v
+		} else {
+			sb.WriteString(v)
+		}
+	}
+	return key, sb.String(), false
+}
+
+// useCmd: build the command on a pooled slice, take its cache identity, then hand the slice back to the
+// pool the way the client does after a request (put: 0 PutCacheable, 1 PutCompleted, 2 keep).
+func useCmd(put string, ws []string) (x ccmd, ans string) {
+	x = fromLinePooled(ws)
+	k, cm, p := realCacheKey(x.c)
+	ans = hx(k) + " " + hx(cm)
+	if p {
+		ans = "panic"
+	}
+	argv := append([]string(nil), x.argv...)
+	switch put {
+	case "0":
+		cmds.PutCacheable(x.c)
+	case "1":
+		cmds.PutCompleted(cmds.Completed(x.c))
+	}
+	x.argv = argv
+	return x, ans
+}
+
 func realCacheKey(c cmds.Cacheable) (key, cmd string, panicked bool) {
 	defer func() {
 		if r := recover(); r != nil {
@@ -92,6 +153,11 @@ func evalCacheKey(line string) string {
 			return "panic"
 		}
 		return hx(k) + " " + hx(c)
+	case "reset":
+		return "ok"
+	case "use":
+		_, ans := useCmd(w[1], w[2:])
+		return ans
 	case "addr":
 		k, c, p := realCacheKey(fromLine(w[1:]).c)
 		if p {
@@ -464,6 +530,54 @@ func runCacheKey(c *Ctx) {
 		c.judgePair(fc, a, b, false)
 	}
 
+	// 2b. builder-pool recycling: a command's identity must be a function of ITS argv, whatever the pooled
+	//     CommandSlice was used for before (episodes: reset, then use/put/use/put…; one P so that sync.Pool
+	//     hands the slice straight back)
+	prev := runtime.GOMAXPROCS(1)
+	bodies := []string{"return 1", "return 2", "return redis.call('GET',KEYS[1])", "x", "x1", ""}
+	pkeys := []string{"k", "k2", "x", "xHGET"}
+	genUse := func() ccmd {
+		as := make([]string, c.Rng.IntN(3))
+		for j := range as {
+			as[j] = []string{"1", "a", "", "12"}[c.Rng.IntN(4)]
+		}
+		body, k := bodies[c.Rng.IntN(len(bodies))], pkeys[c.Rng.IntN(len(pkeys))]
+		switch c.Rng.IntN(8) {
+		case 0, 1:
+			return mk(bld.EvalRo().Script(body).Numkeys(1).Key(k).Arg(as...).Cache(), true)
+		case 2, 3:
+			return mk(bld.EvalshaRo().Sha1(body).Numkeys(1).Key(k).Arg(as...).Cache(), true)
+		case 4:
+			return mk(bld.FcallRo().Function(body).Numkeys(1).Key(k).Arg(as...).Cache(), true)
+		case 5:
+			return mk(bld.Get().Key(k).Cache(), false)
+		case 6:
+			return mk(bld.Hget().Key(k).Field(body).Cache(), false)
+		}
+		return mk(bld.Getrange().Key(k).Start(int64(c.Rng.IntN(30))).End(int64(c.Rng.IntN(30))).Cache(), false)
+	}
+	for e := 0; e < 40+c.N/4; e++ {
+		c.emitK("reset", false)
+		for j := 0; j < 3+c.Rng.IntN(6); j++ {
+			tmpl := genUse() // only to obtain an argv; the measured command is rebuilt from the op line
+			put := []string{"0", "0", "0", "1", "2"}[c.Rng.IntN(5)]
+			op := "use " + put + " " + tmpl.line()
+			cmds.PutCacheable(tmpl.c) // back to the pool first: the measured command is built on the slice that just cycled
+			x, ans := useCmd(put, strings.Fields(tmpl.line()))
+			c.Hit("use")
+			c.Emit(op, ans, true)
+			wk, wc, wp := pureIdentity(x)
+			want := hx(wk) + " " + hx(wc)
+			if wp {
+				want = "panic"
+			}
+			if ans != want {
+				c.flag(fc, keyPool, op, fmt.Sprintf("%s built on a recycled pooled CommandSlice gets the cache identity %s, its own argv gives %s: it shares the entry of a command used earlier in this episode", x.text(), ans, want))
+			}
+		}
+	}
+	runtime.GOMAXPROCS(prev)
+
 	// 3. model correspondence on arbitrary argvs (incl. shapes no builder produces) and scripts
 	toks := []string{"", "1", "12", "2", "ALL", "GET", "HGET", "k", "x", "J", "\x00\xff", "a b"}
 	for i := 0; i < c.N; i++ {
@@ -517,7 +631,7 @@ func runCacheKey(c *Ctx) {
 
 func init() {
 	suites["cachekey"] = suite{
-		rule: "real cmds.CacheKey / MGetCacheCmd / MGetCacheKey and the real NewSimpleCacheAdapter address (observed through a map-backed SimpleCache) against the model: `ck`/`addr` on every command of a catalog built with the real builders (15 two-token, 13 three-token, 10 four-token command families incl. EVAL_RO/EVALSHA_RO/FCALL_RO over keys {k,x,xHGET}, string args {empty,1,12,2,ALL,GET}, int args {1,12,2,3,23}), random argvs of 0-6 tokens, scripts with numkeys 0/1/2, `mg` on MGET/JSON.MGET; exhaustive pairs sweep over the catalog (grouped by identity and by adapter address): every pair of distinct commands sharing an entry is emitted as a `pair` model line, classified into one of the three known shapes and flagged (c.Fail) under the shape's stable key — anything else gets cachekey:collision:other:<hex>; the three known witnesses (+ a script witness) are replayed end to end on the real LRU and adapter stores (Flight miss, Update, Flight of the other command returns the first reply). non-trivial = distinct op on a command with >= 3 tokens, any pair/addr/mg/script line",
+		rule: "real cmds.CacheKey / MGetCacheCmd / MGetCacheKey and the real NewSimpleCacheAdapter address (observed through a map-backed SimpleCache) against the model: `ck`/`addr` on every command of a catalog built with the real builders (15 two-token, 13 three-token, 10 four-token command families incl. EVAL_RO/EVALSHA_RO/FCALL_RO over keys {k,x,xHGET}, string args {empty,1,12,2,ALL,GET}, int args {1,12,2,3,23}), random argvs of 0-6 tokens, scripts with numkeys 0/1/2, `mg` on MGET/JSON.MGET; exhaustive pairs sweep over the catalog (grouped by identity and by adapter address): every pair of distinct commands sharing an entry is emitted as a `pair` model line, classified into one of the three known shapes and flagged (c.Fail) under the shape's stable key — anything else gets cachekey:collision:other:<hex>; builder-pool recycling episodes (`reset`, then `use`: build on a pooled CommandSlice, CacheKey, PutCacheable/PutCompleted/keep, next command — EVAL_RO/EVALSHA_RO/FCALL_RO with different bodies/keys/args mixed with plain commands, GOMAXPROCS(1)): every identity must be the pure function of the command's own argv, else cachekey:collision:other:pool-recycled-identity; the three known witnesses (+ a script witness) are replayed end to end on the real LRU and adapter stores (Flight miss, Update, Flight of the other command returns the first reply). non-trivial = distinct op on a command with >= 3 tokens, any pair/addr/mg/script line",
 		run:  runCacheKey,
 		replay: func(c *Ctx, lines []string) {
 			fc := failCounter{}
@@ -526,6 +640,18 @@ func init() {
 				if w[0] == "pair" {
 					a, b := splitSlash(w[1:])
 					c.judgePair(fc, fromLine(a), fromLine(b), true)
+				} else if w[0] == "use" {
+					runtime.GOMAXPROCS(1)
+					x, ans := useCmd(w[1], w[2:])
+					c.Emit(l, ans, true)
+					wk, wc, wp := pureIdentity(x)
+					want := hx(wk) + " " + hx(wc)
+					if wp {
+						want = "panic"
+					}
+					if ans != want {
+						c.flag(fc, keyPool, l, fmt.Sprintf("%s built on a recycled pooled CommandSlice gets the cache identity %s, its own argv gives %s", x.text(), ans, want))
+					}
 				} else {
 					c.Emit(l, evalCacheKey(l), true)
 				}
